@@ -1,6 +1,7 @@
 (** C06 — Acknowledgements are processed only if proven for that exact packet. *)
 From IBC Require Import Core.ChainExamples.
-From IBC Require Import Lib.Bytes Core.Height Core.Chain Core.World Core.WorldFacts Core.ChainFacts Core.ChainInv Core.ChainThms.
+From IBC Require Import Lib.Bytes Core.Height Core.Chain Core.World Core.WorldFacts Core.ChainFacts Core.ChainInv Core.ChainThms
+  Lib.Sha256 Keys.Commit Keys.CommitFacts.
 Local Open Scope N_scope.
 
 (** v1: the stored commitment equals the commitment of exactly the relayed packet's fields, and the light
@@ -55,6 +56,24 @@ Theorem C06_honest_membership other me pf lh id ph k v :
     assocN ver (w_vers other) = Some snap /\ lookup snap k = Some v' /\ pval_eqb v v' = true.
 Proof. exact (honest_membership other me pf lh id ph k v). Qed.
 Print Assumptions C06_honest_membership.
+
+(** the value the light client is asked to verify is the acknowledgement commitment, and that commitment binds the
+    acknowledgement (v1) and the whole list of application acknowledgements with order and count (v2): equal
+    commitments mean equal acknowledgements or an exhibited collision of the hash function H (a Section variable:
+    any function with 32-byte outputs; the correspondence family `purekeys` instantiates it with SHA-256 and compares
+    the implementation's CommitAcknowledgement with the model byte for byte).  This is what justifies the structural
+    acknowledgement values ([VAck1], [VAck2]) of the life-cycle model. *)
+Section C06_commitments.
+  Variable H : bytes -> bytes.
+  Hypothesis H_len : forall x, length (H x) = 32%nat.
+  Theorem C06_v1_ack_commitment_binds d d' : commit_ack_v1 H d = commit_ack_v1 H d' -> d = d' \/ collision H.
+  Proof. exact (commit_ack_v1_binds H d d'). Qed.
+  Theorem C06_v2_ack_commitment_binds acks acks' :
+    commit_ack_v2 H acks = commit_ack_v2 H acks' -> acks = acks' \/ collision H.
+  Proof. exact (commit_ack_v2_binds H H_len acks acks'). Qed.
+End C06_commitments.
+Print Assumptions C06_v1_ack_commitment_binds.
+Print Assumptions C06_v2_ack_commitment_binds.
 
 (** non-vacuity: a concrete state satisfies the invariant and a concrete 13-step history (duplicates, a failing
     application, an ORDERED timeout, multi-payload v2 receives) produces exactly the expected callbacks *)
